@@ -109,6 +109,19 @@ SEEDS = {
                         _col("f", "Any", "$n + 1 if $n is not None else None")]]],
     [["BulkAddRecord", "A", [None, None], {"n": [1, 2], "m": [5, 6]}]],
   ],
+  # trigger formulas WITH dependencies (column refs: manualSort=1, n=2, m=3, v=4, w=5, tag=6).
+  # `value` is the cell's current value inside a trigger formula.
+  "trigger_deps": [
+    [["AddTable", "A", [_col("n", "Int"), _col("m", "Int"),
+                        _col("v", "Int", "(value or 0) + 1", isFormula=False),
+                        _col("w", "Text", "'%s/%s' % ($n, $m)", isFormula=False),
+                        _col("tag", "Text", "str($m)[:2].upper()", isFormula=False),
+                        _col("f", "Any", "($v or 0) * 10")]]],
+    [["UpdateRecord", "_grist_Tables_column", 4, {"recalcWhen": 0, "recalcDeps": ["L", 2]}],
+     ["UpdateRecord", "_grist_Tables_column", 5, {"recalcWhen": 0, "recalcDeps": ["L", 2, 3]}],
+     ["UpdateRecord", "_grist_Tables_column", 6, {"recalcWhen": 0, "recalcDeps": ["L", 3]}]],
+    [["BulkAddRecord", "A", [None, None], {"n": [1, 2], "m": [5, 6]}]],
+  ],
   "prevnext": [
     [["AddTable", "A", [_col("g", "Text"), _col("d", "Int"),
                         _col("p", "Any", "PREVIOUS(rec, group_by='g', order_by='d').d"),
